@@ -85,6 +85,15 @@ TABLE = {
             {"driver": "chan-seq", "required_clauses": ["callback-legitimacy", "dispatch-owed"]},
         ],
     },
+    "C08": {
+        "level": "model_checking", "rule": WORLD_RULE, "assumptions": SEQ_ASSUME + ["excluded as documented: enable() of, and Dispatcher::as_source_ref/as_source_mut on, the source whose callback is running; operations issued from inside a future body are limited to what the executor callback and scheduling exercise"],
+        "drivers": [
+            {"driver": "reentrancy", "required_clauses": ["callback-legitimacy", "idle-from-callback", "dispatch-owed", "executor-destroyed", "blocking-mode-restored", "timer-fire"]},
+            {"driver": "crash-probe", "required_clauses": ["destructor-reentrancy"], "shards": 1, "replayable": False},
+            {"driver": "idle", "required_clauses": ["idle-run"]},
+            {"driver": "lifecycle", "required_clauses": ["lifecycle"]},
+        ],
+    },
     "C09": {
         "level": "model_checking", "rule": WORLD_RULE, "assumptions": SEQ_ASSUME + ["scripted sources are harness-defined composites over Generic children; when the same callback also removes its own source, or when event processing fails, only the final state of that source and the absence of any effect on others are required (statement is silent on the combination)"],
         "drivers": [
@@ -137,6 +146,18 @@ TABLE = {
             {"driver": "wakeup", "required_clauses": ["wakeup"], "opts": {"quick": {"preempt": 100}, "thorough": {"preempt": 100}}, "shards": 1},
             {"driver": "run", "required_clauses": ["run-stop"], "opts": {"quick": {"preempt": 100}, "thorough": {"preempt": 100}}, "shards": 1},
             {"driver": "block_on", "required_clauses": ["block-on"], "opts": {"quick": {"preempt": 100}, "thorough": {"preempt": 100}}, "shards": 1},
+        ],
+    },
+    "C17": {
+        "level": "model_checking",
+        "rule": ("every configuration from the grid (message length x write chunk x read buffer, reader via AsyncRead or readable()+read, writer task / raw peer / writable()+write, "
+                 "fd blocking or non-blocking beforehand, release by drop or into_inner) x every history of up to 4 (quick) / 5 (thorough) operations from {schedule reader, schedule writer or next raw write, dispatch}, "
+                 "followed by a fair completion phase, is executed on real socketpairs with minimised buffers. states = distinct complete choice sequences; distinct = distinct end observations; non-trivial = the reader finished a message longer than one byte"),
+        "assumptions": SEQ_ASSUME + ["'all byte strings' is covered by data independence (the adapter never inspects values; one position-dependent pattern per length shows loss, duplication and reordering) plus the length/chunk grid — a stated bound, not exhaustive over byte strings",
+                                     "reader and writer of the *same* adapter pending simultaneously (single waker slot) is not generated"],
+        "drivers": [
+            {"driver": "async-io", "required_clauses": ["async-io", "release"]},
+            {"driver": "epoll", "required_clauses": ["blocking-mode-restored"]},
         ],
     },
     "C20": {
